@@ -27,7 +27,7 @@ TBegin ==
                                        m |-> 0, err |-> ""]
             [] Line.op = "close"   -> [op |-> "close", stage |-> "cas", m |-> Line.m]
             [] Line.op = "lookup"  -> [op |-> "lookup", stage |-> "lock", name |-> Line.name]
-            [] Line.op = "rtclose" -> [op |-> "rtclose", stage |-> "cas"]
+            [] Line.op = "rtclose" -> [op |-> "rtclose", stage |-> "cas", cur |-> 0]
             [] OTHER               -> [op |-> Line.op, stage |-> "check"]]
      /\ (Line.op = "close" => Line.m \in ModIds)
   /\ UNCHANGED <<rtClosed, storeClosed, owner, listed, lock, mods, ops, hist, snaps, last>>
@@ -85,7 +85,7 @@ TReset ==
 
 (* unlogged lock-free steps; they consume no trace line *)
 Silent(t) == \/ InstCheck(t) \/ FailCAS(t) \/ Attach(t) \/ CloseCAS(t) \/ RtCAS(t) \/ StoreLock(t) \/ Compile(t) \/ CompileAdd(t)
-             \/ InstEngineClosed(t)
+             \/ InstEngineClosed(t) \/ (\E m \in listed : StoreCloseCAS(t, m))
 
 TNext == \/ TBegin \/ TRegister \/ TUnlist \/ TLookup \/ TRes \/ TStoreClose \/ TEnd \/ TReset
          \/ (\E t \in Threads : Silent(t) /\ UNCHANGED l)
